@@ -146,6 +146,13 @@ def generate():
         for label, mk, shape in field_hosts(["#[educe(Default)]"], kinds=("struct",)):
             yield ("expression spellings", [mk("#[educe(%s)]" % a, 1) for a in forms])
         yield ("expression spellings", [item("union", "U", ["#[educe(Default)]"], [("", "named", [], with_attr(plain_fields("named", 2, "u8"), 1, "#[educe(%s)]" % a))]) for a in forms])
+    # every literal kind on a field of its natural type and on one that is not: the conversion is decided per kind
+    for ty, e in [("&'static str", '"hi"'), ("String", '"hi"'), ("bool", "true"), ("Wrapper", "true"), ("char", "'c'"), ("Wrapper", "'c'"),
+                  ("u8", "b'a'"), ("u16", "b'a'"), ("&'static [u8; 2]", 'b"ab"'), ("Wrapper", 'b"ab"'), ("f64", "1.5"), ("f32", "1.5"),
+                  ("Wrapper", "1.5"), ("f64", "1.5f32"), ("f32", "1.5f32"), ("i64", "7"), ("Wrapper", "7"), ("u8", "7u16"), ("u16", "7u16"),
+                  ("::core::primitive::u8", "7"), ("(u8)", "7")]:
+        forms = ["Default = %s" % e, "Default(expression = %s)" % e, "Default(expr = %s)" % e, "Default(expression(%s))" % e, "Default(expr(%s))" % e]
+        yield ("expression spellings", [item("struct", "S", ["#[educe(Default)]"], [("", "named", [], with_attr(plain_fields("named", 2, ty), 1, "#[educe(%s)]" % a))]) for a in forms])
     # a negative number is a literal for syn when it ends a `name = value` list and a negation everywhere else
     # (known finding: only the literal gets the automatic Into conversion)
     for ty, e in [("Wrapper", "-5"), ("Wrapper", "-1.5"), ("i64", "-5"), ("f64", "-1.5")]:
